@@ -7,6 +7,7 @@ from ..runner import Part, Violation
 
 ID = "C05"
 RULE = ("model-based histories of add / rm by name / rm by instance / disconnect / rename / set+delete tag "
+        "(and, beyond the statement's list, remove-and-add-again of the same object and the item-editing methods of GFA2 groups) "
         "(each step legal in the text model, forward references allowed, a closing phase defines or removes "
         "whatever is pending); after EVERY step the multiset of canonical real lines of the Gfa must equal the "
         "model's records (exact cascade, renamed mentions, dropped gap mentions); whenever the model is closed "
@@ -85,7 +86,7 @@ def st_case(version):
     @st.composite
     def s(draw):
         r = draw(st.randoms(use_true_random=False))
-        h = H.gen_history(r, version, {"p_rm": 0.22, "p_rename": 0.1, "p_tag": 0.12, "close": True, "load": 0.7})
+        h = H.gen_history(r, version, {"p_rm": 0.22, "p_rename": 0.1, "p_tag": 0.12, "close": True, "load": 0.7, "p_item": 0.06})
         h["vlevel"] = gen.choice(r, [1, 1, 1, 2, 3, 0])
         return h
     return s()
